@@ -44,12 +44,13 @@ TSetDelay == IsEv("SetDelay") /\ SetDelay(Ev.w, Ev.v) /\ ChkG
 TDelDelay == IsEv("DeleteDelay") /\ DeleteDelay(Ev.w) /\ ChkG
 TSetRap   == IsEv("SetRap") /\ SetRap(Ev.dom, Ev.v) /\ B(last'.ok) = Ev.ok /\ ChkG
 TDup      == IsEv("Dup") /\ Dup(Ev.which) /\ ChkG
+TFlag     == IsEv("Flag") /\ Flag(Ev.which) /\ ChkG
 TGet      == IsEv("Get") /\ Get(Ev.dom, Ev.ty) /\ last'.res = Ev.r /\ ChkG
 TGetDelay == IsEv("GetDelay") /\ GetDelayOp(Ev.w) /\ last'.res = Ev.r /\ ChkG
 
 TInit == Init /\ l = 1
 TNext == \/ TReset \/ TSetDate \/ TRebase \/ TDelete \/ TAdd \/ TSetDelay \/ TDelDelay
-         \/ TSetRap \/ TDup \/ TGet \/ TGetDelay
+         \/ TSetRap \/ TDup \/ TFlag \/ TGet \/ TGetDelay
 TSpec == TInit /\ [][TNext]_tvars
 
 Accepted == LET d == TLCGet("stats").diameter IN
